@@ -7,10 +7,12 @@ PROPERTY = "C06"
 ASSUMPTIONS = vh_c02.ASSUMPTIONS[:4] + [
     "monitors C02 (exactly one terminal notification, immutable record), C03 (drained at quiescence, no double ack), C09 (nothing appended to the history after the terminal event) run after every step; scenario oracles: the execution fails with the first-handled branch's error (no Catch/Retry), reaches the Catcher's Next with the Error Output placed by ResultPath (Catch), or succeeds on the retried attempt (Retry); after ParallelStateFailed no sibling branch state is entered or exited",
 ]
-SPLIT = {"nested_par": [("_fail", "fail")], "par_branch_retry": [("_fail", "bfail")], "par_inner_catch": [("_fail", "bfail")], "par2": [("_a", "fa and not fb"), ("_b", "fb and not fa"), ("_ab", "fa and fb")],
+SPLIT = {"nested_par": [("_fail", "fail")], "nested_inner_catch": [("_catch", "mode == 0 and q2 == 0"), ("_retry", "mode == 1 and q2 == 0"), ("_catch_task", "mode == 0 and q2 == 1"), ("_retry_task", "mode == 1 and q2 == 1")], "par_branch_retry": [("_fail", "bfail")], "par_inner_catch": [("_fail", "bfail")], "par2": [("_a", "fa and not fb"), ("_b", "fb and not fa"), ("_ab", "fa and fb")],
          "par_catch": [("_s%d%s" % (s, t), "sib == %d and %s" % (s, c)) for s in range(3)
                        for t, c in (("_a", "fa and not fb"), ("_b", "fb and not fa"), ("_ab", "fa and fb"))
                        if not (s != 0 and t != "_a")],
          "par_retry": [("_f%d_s%d" % (f, s), "nfail == %d and sib == %d" % (f, s)) for f in (1, 2) for s in (0, 1)],
          "map_items": [("_fail", "failing >= 0 and n >= 1")]}
-scn.register(globals(), {"C06", "C02", "C03", "C09"}, ["par2", "par_catch", "par_retry", "map_items", "par_wait_fail", "par_branch_retry", "par_inner_catch", "nested_par"], SPLIT)
+scn.register(globals(), {"C06", "C02", "C03", "C09"}, ["par2", "par_catch", "par_retry", "map_items", "par_wait_fail", "par_branch_retry", "par_inner_catch", "nested_par", "nested_inner_catch"], SPLIT)
+for _n in ("nested_inner_catch_catch_task", "nested_inner_catch_retry_task"):
+    globals()[_n]._vf.tiers = ("thorough",)
